@@ -823,6 +823,18 @@ def blocking_shapes():
         [L("read", "l"), L("send", "c1", v=1), join(3), L("unlockr", "l")], [L("read", "l"), L("unlockr", "l")]))
     A(P("reader-joins-tryreader", [spawn(3), spawn(2), L("recv", "c1"), join(2), L("droprx", "c1")],
         [L("read", "l"), L("send", "c1", v=1), join(3), L("unlockr", "l")], [L("tryread", "l"), br(1, 1, 1), L("unlockr", "l")]))
+    # a thread about to try_lock / try_read / try_write is never blocked: the holder may be waiting for it (F22)
+    A(P("trylocker-needed-by-blocked-holder", [spawn(2), L("lock", "m"), L("recv", "ch"), L("unlock", "m"), join(2), L("droprx", "ch")],
+        [L("trylock", "m"), br(1, 1, 1), L("unlock", "m"), L("send", "ch", v=1)]))
+    A(P("trywriter-needed-by-blocked-writer", [spawn(2), L("write", "l"), L("recv", "ch"), L("unlockw", "l"), join(2), L("droprx", "ch")],
+        [L("trywrite", "l"), br(1, 1, 1), L("unlockw", "l"), L("send", "ch", v=1)]))
+    A(P("tryreader-needed-by-blocked-writer", [spawn(2), L("write", "l"), L("recv", "ch"), L("unlockw", "l"), join(2), L("droprx", "ch")],
+        [L("tryread", "l"), br(1, 1, 1), L("unlockr", "l"), L("send", "ch", v=1)]))
+    A(P("trywriter-needed-by-blocked-reader", [spawn(2), L("read", "l"), L("recv", "ch"), L("unlockr", "l"), join(2), L("droprx", "ch")],
+        [L("trywrite", "l"), br(1, 1, 1), L("unlockw", "l"), L("send", "ch", v=1)]))
+    A(P("nested-lock-vs-nested-trylock", SJ(2) + JJ(2), CS("m", *CS("n")), [L("lock", "n"), L("trylock", "m"), br(1, 1, 1), L("unlock", "m"), L("unlock", "n")]))
+    A(P("trylocker-needed-by-parked-holder", [spawn(2), L("lock", "m"), L("park"), L("unlock", "m"), join(2)],
+        [L("trylock", "m"), br(1, 1, 1), L("unlock", "m"), unpark(1)]))
     # ... also when both readers were blocked behind a writer: its release lets ALL pending readers in, not only the first
     A(P("readers-behind-writer-wait-for-each-other", [L("write", "l"), spawn(2), spawn(3), ld("x"), L("unlockw", "l"), join(2), join(3)],
         [L("read", "l"), L("recv", "c2"), L("unlockr", "l"), L("droprx", "c2")], [L("read", "l"), L("send", "c2", v=1), L("unlockr", "l")]))
@@ -1385,6 +1397,12 @@ def static_shapes():
     A(P("lz-instance-data", SJ(2) + JJ(2), [LZ("Z0"), LR("Z0")], [LZ("Z0"), LR("Z0")]))
     A(P("lz-racy-instance-data", SJ(2) + JJ(2), [LZ("Z1", "yield"), LR("Z1")], [LZ("Z1", "yield"), LR("Z1")]))
     A(P("lz-racy-instance-data-3", SJ(3) + JJ(3), [LZ("Z1", "yield"), LR("Z1")], [LZ("Z1", "yield"), LR("Z1")], [ld("x"), LZ("Z1", "yield"), LR("Z1")]))
+    # threads that are not joined: main may return first, the statics are destroyed with its closure, a later access is
+    # refused (the model fails) - it never creates a second instance
+    A(P("lz-unjoined-thread", [LZ("Z0"), spawn(2)], [ld("x"), LZ("Z0")]))
+    A(P("lz-unjoined-thread-first-use", [spawn(2), ld("x")], [LZ("Z0")]))
+    A(P("lz-unjoined-two-threads", [spawn(2), spawn(3), LZ("Z0")], [LZ("Z0")], [ld("x"), LZ("Z0")]))
+    A(P("lz-unjoined-racy-init", [spawn(2), LZ("Z1", "yield")], [LZ("Z1", "yield"), LR("Z1")]))
     A(P("lz-init-in-main-before-spawn", [LZ("Z0")] + SJ(2) + JJ(2), [LZ("Z0"), rd("c_Z0")], [rd("c_Z0")]))
     A(P("lz-and-tl", SJ(2) + JJ(2), [TW("T0"), LZ("Z0"), TW("T0")], [LZ("Z0"), TW("T0")]))
     A(P("lz-with-atomics", SJ(2) + JJ(2) + [ld("x")], [st("x", 1, "rel"), LZ("Z0")], [LZ("Z0"), ld("x", "acq")]))
@@ -1561,6 +1579,20 @@ def limit_crash_programs():
     out.append(P("lim-nested-spawn-owns-arc", [spawn(2), ld("x"), L("adrop", "a1"), join(2)],
                  [I("spawn", "a3", v=3), ld("x"), L("adrop", "a2"), join(3)], [ld("x"), L("adrop", "a3")], arcs=a3))
     out += [with_builder(p) for p in out if p.get("name", "").startswith("lim-")]
+    # every operation of the Arc API as the point at which the branch limit strikes (each has one or two scheduling points of
+    # its own, and a handle that is being consumed is in an intermediate state between them)
+    ops = [L("aclone", "a1", o2="a1b"), L("adrop", "a1b"), L("acount", "a1"), L("adrop", "a2"), L("agetmut", "a1"), L("aunwrap", "a1")]
+    out.append(P("lim-arc-api-main", list(ops), arcs=a2))
+    out.append(P("lim-arc-api-thread", [spawn(2), join(2)], list(ops), arcs=a2))
+    out.append(P("lim-arc-api-unwrap-first", [L("adrop", "a2"), L("aunwrap", "a1")], arcs=a2))
+    out.append(P("lim-arc-api-unwrap-fails", [L("aunwrap", "a1"), L("adrop", "a2"), L("adrop", "a1")], arcs=a2))
+    out.append(P("lim-arc-api-raw", [L("adrop", "a2"), L("aintoraw", "a1"), L("afromraw", "a1"), L("adrop", "a1")], arcs=a2))
+    # the payload's destructor performs a tracked access of its own (the interpreter's Payload does, on the payload cell): when
+    # the limit strikes inside the Arc's decrement, the unwinding drops the payload without the decrement's synchronisation
+    a2c = {"A": {"h0": ["a1", "a2"], "cell": "pc"}}
+    out.append(P("lim-arc-payload-cell", [spawn(2), rd("pc"), L("adrop", "a1"), join(2)], [rd("pc"), L("adrop", "a2")], arcs=a2c))
+    out.append(P("lim-arc-payload-cell-main-last", [spawn(2), rd("pc"), join(2), L("adrop", "a1")], [rd("pc"), L("adrop", "a2")], arcs=a2c))
+    out.append(P("lim-arc-api-thread-unwrap-after-join", [spawn(2), join(2), L("aunwrap", "a1")], [ld("x"), L("adrop", "a2")], arcs=a2))
     return [normalize(p) for p in out]
 
 
